@@ -174,6 +174,23 @@ pub fn generate(repo: &PathBuf) -> Result<String, String> {
         more => return Err(format!("update_records_from_an_existing_store: {} size tests against max_value_bytes", more.len())),
     };
 
+    // file names: `generate_filename` = hex of the WHOLE key; `get_data_from_filename` = hex::decode with no filter
+    let gen_name = impl_fn(&file, "NodeRecordStore", None, "generate_filename")?;
+    let c = calls_in_block(&gen_name.block);
+    let sh = shapes(&gen_name.block);
+    if !c.paths.iter().any(|p| p == "hex::encode") {
+        return Err("generate_filename: expected hex::encode(key.as_ref())".into());
+    }
+    let name_full_hex = sh.ranges.is_empty() && sh.bins.is_empty() && c.methods.iter().all(|m| m == "as_ref");
+    let from_name = impl_fn(&file, "NodeRecordStore", None, "get_data_from_filename")?;
+    let c = calls_in_block(&from_name.block);
+    let sh = shapes(&from_name.block);
+    if !c.paths.iter().any(|p| p == "hex::decode") {
+        return Err("get_data_from_filename: expected hex::decode(hex_str)".into());
+    }
+    let allowed = ["into", "to_vec", "as_ref"];
+    let name_unfiltered = sh.bins.is_empty() && sh.ranges.is_empty() && c.methods.iter().all(|m| allowed.contains(&m.as_str()));
+
     // RecordStore::put refuses `record.value.len() >= max_value_bytes`; put_verified has no size test
     let kput = impl_fn(&file, "NodeRecordStore", Some("RecordStore"), "put")?;
     let sh = shapes(&kput.block);
@@ -230,6 +247,8 @@ pub fn generate(repo: &PathBuf) -> Result<String, String> {
     s.push_str(&format!("/-- the start-up scan removes files by a size test against `max_value_bytes` -/\ndef scanDropsOversized : Bool := {}\n", lean_bool(scan_drops)));
     s.push_str(&format!("/-- that test measures the file length (otherwise the decrypted value length) -/\ndef scanSizeOnFile : Bool := {}\n", lean_bool(scan_on_file)));
     s.push_str(&format!("/-- that test is `len > max` (otherwise `len >= max`) -/\ndef scanSizeStrict : Bool := {}\n", lean_bool(scan_strict)));
+    s.push_str(&format!("/-- `generate_filename` is the hex of the whole key (no slicing / truncation) -/\ndef fileNameIsFullHex : Bool := {}\n", lean_bool(name_full_hex)));
+    s.push_str(&format!("/-- `get_data_from_filename` (start-up scan) accepts every hex name: no length or other filter -/\ndef scanAcceptsEveryHexName : Bool := {}\n", lean_bool(name_unfiltered)));
     s.push_str(&format!("/-- `RecordStore::put` refuses `len >= max_value_bytes` (otherwise `>`); `put_verified` has no size test -/\ndef putSizeInclusive : Bool := {}\n", lean_bool(put_inclusive)));
     s.push_str("end SafeNet.Gen.Store\n");
     Ok(s)
